@@ -18,13 +18,13 @@ func TestSmokeB(t *testing.T) {
 	if n == 0 {
 		n = 20
 	}
-	base, _ := strconv.Atoi(os.Getenv("BASE"))
+	base, _ := strconv.ParseUint(os.Getenv("BASE"), 10, 64)
 	found := map[string]int{}
 	nt := 0
 	t0 := time.Now()
 	probes := map[string]int{}
 	for i := 0; i < n; i++ {
-		seed := uint64(base + i)
+		seed := base + uint64(i)
 		plan := Gen(prop, "quick", seed)
 		res := Execute(t, plan, nil, os.Getenv("VV") != "")
 		if os.Getenv("VV") != "" {
